@@ -8,4 +8,7 @@ cp /repo/Cargo.lock engines/kani/Cargo.lock
 ( cd engines/kani && CARGO_TARGET_DIR=../../.build/native cargo build --offline --bin replay ) > .build/logs/setup_native.log 2>&1 || { echo "native build failed"; tail -20 .build/logs/setup_native.log; exit 1; }
 # pre-compile cwe_checker_lib and the harness crate under Kani (codegen only, no verification)
 ( cd engines/kani && cargo kani -Z stubbing -Z unstable-options --features c01 --only-codegen --target-dir ../../.build/kani ) > .build/logs/setup_kani.log 2>&1 || { echo "kani codegen failed"; tail -20 .build/logs/setup_kani.log; exit 1; }
+cp /repo/Cargo.lock engines/tv/driver/Cargo.lock
+( cd engines/tv/driver && CARGO_TARGET_DIR=../../../.build/tv cargo build --offline --release ) > .build/logs/setup_tv.log 2>&1 || { echo "tv driver build failed"; tail -20 .build/logs/setup_tv.log; exit 1; }
+python3-vt -c "import z3" || { echo "z3 python bindings missing"; exit 1; }
 echo "setup ok"
